@@ -620,6 +620,26 @@ CHECKS["C15"] = {
     ],
 }
 
+# C03, the populated interface table (MIR engine): what the Kani harnesses leave out (DESIGN B3)
+C03_TABLE_MODELS = [
+    "MIR symbolic execution (smt/mirsym.py, smt/c03_table.py); callees are replaced by contract models:",
+    "HashMap::new / insert (Some(old) and replaced iff an equal key is present) / keys (every key once) / contains_key / Index::index "
+    "(panic event if missing) -> association list, one successor per case",
+    "Vec IntoIterator / next, Keys::cloned, Vec::extend, the vec! expansion -> sequences; <dyn Interface>::get_name -> the object's name",
+    "<dyn Interface>::call, <VarlinkService as Interface>::call, Call::reply_interface_not_found -> recorded events, Ok or Err (free)",
+]
+for _n, _t in (("c03_table_new_3", ("quick", "thorough")), ("c03_table_new_4", ("thorough",)), ("c03_table_call", ("quick", "thorough"))):
+    CHECKS["C03"]["harnesses"].append(
+        H(_n, engine="smt", script="c03_table.py", tiers=_t, timeout=(900, 1800),
+          functions=["varlink::VarlinkService::new (rustc MIR)"] if "new" in _n else ["varlink::VarlinkService::call (private; rustc MIR)"],
+          symbolic=("the names of the %s registered interfaces (z3 values, any may coincide)" % _n[-1]) if "new" in _n else
+                   "a table of two interfaces with distinct symbolic names; the interface name of the call",
+          bounds="all paths of the function", stubs=C03_TABLE_MODELS))
+CHECKS["C03"]["assumptions"].append(
+    "c03_table_* (z3 on the MIR of VarlinkService::new / ::call, callee models for HashMap): GetInfo's list is org.varlink.service "
+    "followed by every registered name exactly once, the table maps every name to an interface of that name, a call reaches exactly "
+    "the interface of its name, the built-in interface only its own name, anything else InterfaceNotFound naming it")
+
 # Duplicate detection / order of appearance in IDL::from_token (harness/parser/c11.rs, not mounted) was attempted
 # twice with Kani and is not part of the claim: see DESIGN.md section 3/C11.
 
